@@ -104,7 +104,7 @@ func Resume(ctx context.Context, pipe gdbi.Pipeline, workdir string, input gdbi.
 		dataType := pipe.DataType()
 		markTypes := pipe.MarkTypes()
 		man := engine.NewManager(workdir)
-		for t := range Start(ctx, pipe, man, bufsize, input, cancel) {
+		for t := range Start(ctx, pipe, man, bufsize, loadMarks(graph, input), cancel) {
 			if !t.IsSignal() {
 				resch <- Convert(graph, dataType, markTypes, t)
 			}
@@ -112,6 +112,41 @@ func Resume(ctx context.Context, pipe gdbi.Pipeline, workdir string, input gdbi.
 		man.Cleanup()
 	}()
 	return resch
+}
+
+// loadMarks fills in the marked elements that the input travelers carry by id only.
+// The pipeline that produced the travelers loaded the data of a marked element only
+// if one of its own statements read it; the statements of the pipeline that is
+// resumed on them may read any mark.
+func loadMarks(graph gdbi.GraphInterface, input gdbi.InPipe) gdbi.InPipe {
+	if graph == nil || input == nil {
+		return input
+	}
+	out := make(chan gdbi.Traveler, 100)
+	go func() {
+		defer close(out)
+		for t := range input {
+			if !t.IsSignal() {
+				for _, name := range t.ListMarks() {
+					m := t.GetMark(name)
+					if m == nil || m.Loaded {
+						continue
+					}
+					var full *gdbi.DataElement
+					if m.To != "" {
+						full = graph.GetEdge(m.ID, true)
+					} else {
+						full = graph.GetVertex(m.ID, true)
+					}
+					if full != nil {
+						t = t.AddMark(name, full)
+					}
+				}
+			}
+			out <- t
+		}
+	}()
+	return out
 }
 
 // Convert takes a traveler and converts it to query output
